@@ -31,6 +31,10 @@ type HOp struct {
 
 type HCase struct {
 	Ops []HOp `json:"ops"`
+	// Reuse: every dispatch uses the SAME message object, whose header fields are rewritten for
+	// each step (a relay rewriting a request, an application recycling its message) and which
+	// is printed once before the first dispatch.
+	Reuse bool `json:"reuse,omitempty"`
 }
 
 type modelMux struct {
@@ -47,6 +51,7 @@ func runHistory(c HCase) *ev.Failure {
 	mux := diam.NewServeMux()
 	model := modelMux{idx: map[Idx]int{}, name: map[string]int{}, all: -1}
 	var calls []call
+	var reused *diam.Message
 	for i, op := range c.Ops {
 		if op.Reg != nil {
 			r := *op.Reg
@@ -99,6 +104,15 @@ func runHistory(c HCase) *ev.Failure {
 		}
 		calls = calls[:0]
 		m := diam.NewMessage(msg.Code, msg.Flags, msg.App, 1, 2, p)
+		if c.Reuse {
+			if reused == nil {
+				reused = m
+				_ = reused.String()
+			} else {
+				reused.Header.CommandCode, reused.Header.CommandFlags, reused.Header.ApplicationID = msg.Code, msg.Flags, msg.App
+			}
+			m = reused
+		}
 		mux.ServeDIAM(&stubConn{d: p}, m)
 		reports := 0
 		for done := false; !done; {
@@ -273,6 +287,7 @@ func genHistory(t *rapid.T) HCase {
 		}
 		c.Ops = append(c.Ops, HOp{Reg: &r})
 	}
+	c.Reuse = rapid.IntRange(0, 3).Draw(t, "reuse-message") == 0
 	return c
 }
 
